@@ -45,6 +45,30 @@ DESC = {
                "a deserializer with a bytes data type carrying UTF-8 that spells a PURL"),
     "c16b-3": ("C16", "'No-alloc' Serialize formats into a 256-byte stack buffer; an ignored write! result plus an 'it fit' check accept a truncated prefix.",
                "a canonical string longer than 256 bytes; output is cut at a Display piece boundary"),
+    "r2c12-1": ("C12", "copy_as_lowercase's non-ASCII branch uses str::to_lowercase() (context-sensitive: word-final capital sigma becomes the final form) instead of lower-casing letter by letter.",
+                "an algorithm name with a capital sigma in word-final position given in upper case, together with its lower-case spelling: the two case variants become two entries"),
+    "r2c12-2": ("C12", "The checksum text is assembled in a thread-local scratch buffer that is cleared only after a successful conversion; the early return for invalid hex leaves entries behind.",
+                "hidden state + a fault at a particular point: a refused conversion in which a valid entry sorts before the invalid one, then any later conversion on the same thread"),
+    "r2c12-3": ("C12", "build() canonicalises the checksum before the finishing hook; only the empty-qualifier removal is repeated after it.",
+                "a user-supplied shape whose hook writes or rewrites the checksum as non-canonical text (the built-in shapes never do)"),
+    "r2c12-4": ("C12", "Checksum::try_from(&str) trims leading whitespace of every comma-separated item.",
+                "an algorithm name that starts with whitespace (blank, tab, U+3000) plus a path that re-parses the text form"),
+    "r2c14-1": ("C14", "is_valid_package_type 'optimised' to a byte range '+'..='.', which also contains ','.",
+                "a comma in the type substring; every other invalid character is still refused"),
+    "r2c14-2": ("C14", "Same idea as r2c12-2, written independently: thread-local checksum text buffer not cleared on refusal.",
+                "two steps on one thread: a refusal where a well-formed algorithm sorts before the malformed one, then any later build or parse carrying a checksum"),
+    "r2c14-3": ("C14", "The post-hook generic checks return a 'changed' flag; when something changed, finish is called a second time.",
+                "something for the generic checks to do (an empty-valued qualifier or a non-canonical checksum) and a hook that counts, is not idempotent, or fails the second time"),
+    "r2c14-4": ("C14", "Qualifiers gets a private 'normalized' flag that build() uses to skip empties-removal and checksum canonicalisation; every write path resets it except IndexMut.",
+                "a builder obtained via into_builder() from a built PURL with no qualifier write in between, and a hook that writes through parts.qualifiers[key] = ..."),
+    "r2c16-1": ("C16", "Serialize formats into a thread-local String, calls serialize_str and only then clears the buffer; a serializer error returns early and leaves the text behind.",
+                "a failed serialisation (failing writer) followed by another serialisation on the same thread"),
+    "r2c16-2": ("C16", "The Deserialize visitor implements only visit_borrowed_str and visit_string; the transient visit_str is gone.",
+                "a deserializer that delivers the string transiently: from_reader, any JSON string containing an escape, serde's StrDeserializer"),
+    "r2c16-3": ("C16", "A hand-written deserialize_in_place moves the old value's Qualifiers into the new parts 'to keep the allocation' and never clears them.",
+                "the in-place entry point (directly or through Vec::deserialize_in_place) and a previous value that has qualifiers"),
+    "r2c16-4": ("C16", "visit_str runs a fail-fast T::from_str on the text between 'pkg:' and the first '/', without trimming the leading slashes the parser ignores.",
+                "a T whose FromStr rejects the empty string (Purl) and the legal pkg:/... or pkg://... form"),
 }
 
 
@@ -61,6 +85,7 @@ def main():
     verified = table(os.path.join(ROOT, "VERIFIED.tsv"))
     results = table(os.path.join(ROOT, "RESULTS.tsv"))
     first = table(os.path.join(ROOT, "RESULTS-first-version.tsv"))
+    before2 = table(os.path.join(ROOT, "RESULTS-round2-before-strengthening.tsv"))
     for name, (prop, what, needs) in sorted(DESC.items()):
         d = os.path.join(ROOT, name)
         if not os.path.isdir(d):
@@ -68,10 +93,11 @@ def main():
         v = verified.get(name, {})
         r = results.get(name, {})
         f = first.get(name, {})
+        b2 = before2.get(name, {})
         meta = {
             "id": name,
             "property_broken": prop,
-            "origin": f"fresh sub-agent '{name.split('-')[0]}', change #{name.split('-')[1]}; it was given only the text of {prop} and a scratch worktree of /repo, nothing from /verif",
+            "origin": f"fresh sub-agent '{name.split('-')[0]}', change #{name.split('-')[1]}; it was given only the text of {prop} and a scratch worktree of /repo, nothing from /verif" + ("; round 2: it was also told which ideas round 1 had produced and asked for different ones" if name.startswith("r2") else ""),
             "change": what,
             "needs_in_order_to_manifest": needs,
             "files": {"patch": "patch.diff", "demonstration": "demo.rs (drop into purl/tests/)", "author_notes": "notes.md"},
@@ -99,6 +125,11 @@ def main():
                 "verdict": r.get("verdict"),
             },
         }
+        if b2:
+            meta["checks_before_they_were_strengthened_for_round_2"] = {
+                "note": "result with the checks at commit d6c5350 (after round 1, before round 2 of seeded changes)",
+                "C12": b2.get("C12"), "C14": b2.get("C14"), "C16": b2.get("C16"), "verdict": b2.get("verdict"),
+            }
         if f:
             meta["first_version_of_the_checks"] = {
                 "note": "result with the checks as first committed (057158a), before they were strengthened",
